@@ -3,6 +3,7 @@
     one foreground command whose words are exactly those tokens -- no pipe,
     no background marker, no input or output redirection, no assignment --
     whatever text the quoted tokens hold. *)
+From Cicada Require Import Proofs.SplitLtProofs.
 From Cicada Require Import Base.Chars Base.Tag Model.Tokenizer Model.Redirect Proofs.TokenizerProofs.
 From Coq Require Import Lia.
 Local Open Scope N_scope.
@@ -15,7 +16,8 @@ Proof. destruct t as [[] w]; cbn; congruence. Qed.
 (** the command word: not an assignment, no [>], not one of the operator words *)
 Definition cmd_ok (w : str) : bool :=
   negb (has_char c_gt w) && negb (str_eqb w s_lt) && negb (str_eqb w s_lt3) &&
-  negb (str_eqb w [c_pipe]) && match split_env w with None => true | Some _ => false end.
+  negb (str_eqb w [c_pipe]) && negb (starts_with_c c_lt w) &&   (* /repo 543507e: an untagged <file is split *)
+  match split_env w with None => true | Some _ => false end.
 
 Lemma drain_cmd w l : cmd_ok w = true -> drain_envs ((TNone, w) :: l) [] = ([], (TNone, w) :: l).
 Proof.
@@ -75,7 +77,14 @@ Proof.
   { cbn [split_pipes]. cbn [tag_eqb andb].
     match goal with H : str_eqb cmd [c_pipe] = false |- _ => rewrite H end.
     rewrite split_pipes_none; [reflexivity|exact Hq|reflexivity]. }
-  rewrite Hsp. cbn [map_cmds]. unfold from_tokens.
+  rewrite Hsp. cbn [map_cmds].
+  rewrite from_tokens_nosplit.
+  2:{ cbn [existsb]. apply orb_false_iff. split.
+      - destruct cmd as [|c r]; [reflexivity|]. apply att_lt_first.
+        match goal with H : starts_with_c c_lt (c :: r) = false |- _ => exact H end.
+      - clear -Hq. induction l as [|t l IH]; [reflexivity|]. cbn [forallb existsb] in *. apply andb_true_iff in Hq as [Ht Hl].
+        destruct t as [tg w]. rewrite (att_lt_tagged tg w (quoted_not_none _ Ht)). now apply IH. }
+  unfold from_tokens_core.
   assert (Hhf : has_from ((TNone, cmd) :: l) = false).
   { cbn [has_from existsb fst snd tag_eqb andb].
     repeat match goal with H : str_eqb cmd _ = false |- _ => rewrite H end.
@@ -108,7 +117,7 @@ Proof.
   destruct w as [|c w']; [discriminate|]. specialize (Hfirst c w' eq_refl).
   assert (c <> c_lt) by (intros ->; discriminate).
   assert (c <> c_pipe) by (intros ->; discriminate).
-  unfold s_lt, s_lt3. cbn [str_eqb].
+  unfold s_lt, s_lt3. cbn [str_eqb starts_with_c].
   destruct (N.eqb_spec c c_lt); [contradiction|]. destruct (N.eqb_spec c c_pipe); [contradiction|].
   reflexivity.
 Qed.
